@@ -40,7 +40,15 @@ def scenarios(rng, tier):
     return [(s.text(), {})]
 def project(blk, name, meta):
     if blk.fault: return ('fault',)
-    if blk.op.startswith('frame'): return tuple(blk.acts)
+    if blk.op.startswith('frame'):
+        d = frame_hdr(blk)
+        if d and d['tos'] in (0, 1) and d['opc'] == 0x0B:
+            r = []
+            for _, _, o in blk.sends():
+                q = qlt_fields(o)
+                r.append((q['seq'], q['edst'], q['len'], q['more'], q['payload']) if q else o)
+            return tuple(r)
+        return send_opcodes(blk)
     return ()
 def hwid_value(hwid):
     sc = (bytes(hwid)[:64] + bytes(64))[:64]
@@ -70,7 +78,11 @@ def oracle(name, ib, mb, meta):
         q = qlt_fields(sn[0][2]) if len(sn) == 1 else None
         if q is None:
             fails.append((i, 'QueryLargeTlv (type %d, offset %d) answered by %d frame(s)' % (typ, off, len(sn)))); continue
-        want = data[off:off + P]; more = len(data) > off + P
+        # at most what fits in the MTU, the bytes at the requested offset, more iff bytes remain beyond the returned ones;
+        # a response to an offset inside the data must carry at least one byte (or the mapper never finishes)
+        got_n = len(q['payload'])
+        want = data[off:off + min(got_n, P)] if (got_n or off >= len(data)) else data[off:off + P]
+        more = len(data) > off + len(want)
         dst = d['rsrc'] if d['rsrc'] == d['esrc'] else BCAST
         if q['seq'] != d['seq']: fails.append((i, 'response bears sequence number %d, request had %d' % (q['seq'], d['seq'])))
         if q['edst'] != dst: fails.append((i, 'response addressed to %s, must go to %s' % (q['edst'].hex(), dst.hex())))
